@@ -103,6 +103,11 @@ loop:
 				continue loop
 			}
 		}
+		if after.Contains(innerRing[i]) {
+			// a regular inner ring member that becomes an alphabet one: it is already
+			// taken from `after`, keeping it here would list the key twice
+			continue
+		}
 		result = append(result, innerRing[i])
 	}
 
